@@ -154,7 +154,7 @@ class Run(object):
                 k = e["k"]
                 tgt = FakeTarget()
                 ep = TorCircuitEndpoint(self.reactor, self.state, self.state.circuits[e["c"]], tgt)
-                v = self.via[k] = dict(st="waitaddr", tgt=tgt)
+                v = self.via[k] = dict(st="wait", tgt=tgt)
                 self.holding = bool(e.get("late"))
                 d = ep.connect(object())
                 self.sim.pump()
@@ -164,7 +164,7 @@ class Run(object):
                     v["st"] = "done"
 
                 def err(f, v=v):
-                    v["st"] = "refused" if v["st"] == "waitaddr" and not v.get("addr") else "failed"
+                    v["st"] = "failed"
                 d.addCallbacks(ok, err)
             elif a == "ConfAck":
                 self.sim.release()
@@ -194,8 +194,8 @@ class Run(object):
         via = []
         for k in ("k1", "k2"):
             v = self.via[k]
-            # "waitaddr" = the underlying SOCKS connect has been started; before that the connection waits for the SETCONF
-            via.append("waitconf" if v["st"] == "waitaddr" and not v["tgt"].connected else v["st"])
+            # "waitaddr" = the underlying SOCKS connect has been started; before that the connection waits
+            via.append(("waitaddr" if v["tgt"].connected else "wait") if v["st"] == "wait" else v["st"])
         return dict(wire=wire, att=att, rep=[self.reps[1], self.reps[2], self.reps[3]], via=via, exc=self.exc)
 
 
